@@ -11,8 +11,9 @@
  *
  * Trusted (most general, listed in the plan):
  *  - fgets: the file is a ghost sequence of lines (header + at most G1_NLINES data lines,
- *    that is the bound); call k returns line k, or NULL (end of file or read error) at ANY
- *    call; an "empty" line starts with '\n';
+ *    that is the bound; per-line attributes in separate scalar arrays -- a nondet struct array
+ *    was read back inconsistently by CBMC); call k returns line k, or NULL (end of file or read
+ *    error) at ANY line; an "empty" line starts with '\n';
  *  - sscanf (variadic: rebound by macro to a fixed-arity stub for this one format): returns
  *    EOF or 0..5 for the current line, stores the first `ret` fields, sets errno arbitrarily;
  *  - errno: a ghost int;  calloc: may fail;  memcpy: CBMC model;
